@@ -330,6 +330,8 @@ def monitorOp (prop : String) (seen : Seen) (v : OpView) (next : Option OpView) 
       else if impl.any (fun t => t.startsWith "sk:" || t.startsWith "sr:" || t.startsWith "dr:" || t.startsWith "dw:" || t.startsWith "cb:b") then
         some "refused-transfer-moved-data"
       else if !returned then some "refused-transfer-threw"
+      -- "moves no data": a refused listing returns no listing text (nothing of an earlier listing either)
+      else if op.name = "list" && (ret.splitOn ":").dropLast.getLast?.getD "x" != "x" then some "refused-listing-returned-text"
       -- the operation stops at the refused step: nothing is sent after the command that was refused (no ABOR either)
       else if (match gen.findIdx? (fun (c, _) => c ≥ 400 && c != 421) with
                | some k => decide (writes.length > k + 1)
